@@ -167,7 +167,8 @@ func F32Eq(a, b float32) bool    { return a == b }
 // File-system model helpers: meaningful only inside the engine.
 func FsTraceLen() int              { return int(next("tracelen").Val) }
 func FsTraceKind(k int) string     { return "" }
-func FsTraceWriteLen(k int) int    { return 0 }
+func FsTraceWriteLen(k int) int    { return 1 << 30 }
+func FsTraceIsWrite(k int, suffix string) bool { return true }
 
 // FsCrash: in the engine, replaces the file system by the state after the first k writes of the I/O
 // trace (write k torn after `tear` bytes). Natively (replay) the crash image computed by the engine for
